@@ -288,6 +288,9 @@ impl Game {
                                 self.nondet_ctr += 1;
                                 next ^= crate::rng::mix(self.nondet_ctr);
                             }
+                            PerturbMode::NondetOnce(k) if f == *pf && self.sims[fu] == *k => {
+                                next ^= 0x0BAD_5EED_0000_0001;
+                            }
                             _ => {}
                         }
                     }
